@@ -97,7 +97,7 @@ def run(ctx: core.Ctx):
 
     ops = []  # (py, fname, text, real_kind, real_val, conv, kindtag)
     enc_ops = []
-    n_rand = 400 if thorough else 40
+    n_rand = 2000 if thorough else 40
     rec_by_fn = {}
     for key in T["rec_enum"] + T["rec_num"] + T["rec_other"]:
         rec_by_fn.setdefault((key[1], key[2]), set()).add(key[3])
